@@ -114,6 +114,9 @@ func Load(config, dir string) (*Program, error) {
 		p.Pkgs[pk.PkgPath] = pk
 		if strings.HasPrefix(pk.PkgPath, ModPath) {
 			RegisterLooseConsts(pk)
+			for _, f := range pk.Syntax {
+				Normalize(pk.TypesInfo, f)
+			}
 		}
 	}
 	n := 0
